@@ -17,9 +17,14 @@ import tempfile
 prop, src, k, name = sys.argv[1:5]
 checks = sys.argv[5:] or [prop]
 tier = os.environ.get("SEED_TIER", "quick")
-patch = os.path.join(src, f"patch{k}.diff")
-demo = os.path.join(src, f"demo{k}.py")
-note = os.path.join(src, f"note{k}.md")
+if k == "-":  # refresh an already kept seed in place
+    patch = os.path.join(src, "patch.diff")
+    demo = os.path.join(src, "demo.py")
+    note = os.path.join(src, "note.md")
+else:
+    patch = os.path.join(src, f"patch{k}.diff")
+    demo = os.path.join(src, f"demo{k}.py")
+    note = os.path.join(src, f"note{k}.md")
 tmp = tempfile.mkdtemp(prefix="vt-", dir="/tmp")
 wt = os.path.join(tmp, "repo")
 
@@ -58,9 +63,14 @@ try:
         print(f"check {c}: exit {rc}, {len(viol)} VIOLATION lines", cores[:1])
     dest = os.path.join("/verif/seeded", name)
     os.makedirs(dest, exist_ok=True)
-    shutil.copy(patch, os.path.join(dest, "patch.diff"))
-    shutil.copy(demo, os.path.join(dest, "demo.py"))
-    needs = open(note).read() if os.path.exists(note) else ""
+    old_meta = {}
+    if os.path.exists(os.path.join(dest, "meta.json")):
+        old_meta = json.load(open(os.path.join(dest, "meta.json")))
+    if os.path.abspath(patch) != os.path.abspath(os.path.join(dest, "patch.diff")):
+        shutil.copy(patch, os.path.join(dest, "patch.diff"))
+        shutil.copy(demo, os.path.join(dest, "demo.py"))
+    needs = open(note).read() if os.path.exists(note) else old_meta.get("what_it_needs_to_manifest", "")
+    first = old_meta.get("first_run_detected_by", old_meta.get("detected_by"))
     meta = {
         "property": prop,
         "base_commit": head,
@@ -73,6 +83,7 @@ try:
         },
         "checks_run": {"tier": tier, "results": results},
         "detected_by": [c for c, r in results.items() if r["exit"] == 1],
+        "first_run_detected_by": first if first is not None else [c for c, r in results.items() if r["exit"] == 1],
         "how_run": "tools/seed_keep.py: scratch git worktree of /repo HEAD under /tmp, git apply patch.diff, pytest, demo.py, "
                    "./check <id> --tier quick with VERIF_REPO pointing at the patched copy; worktree removed afterwards",
     }
